@@ -213,16 +213,20 @@ def configs(tier, seed):
             out.append((p, True, True))
         out.append((CP.P3(), False, True))
         out.append((CP.P8(), True, True))
+        out.append((CP.with_noise(CP.P8(), process={"u": 0.0}, sensor={"wide": {"r2": 0.0}}, pid="P8-wide-zero-noise"), True, True))
         out.append((CP.P3(), True, False))
         out.append((CP.P1(), False, False))
         return out
     progs = [CP.P1(), CP.P2(), CP.P7(), CP.P8()] + CP.presence_variants(CP.P3()) + CP.presence_variants(CP.P10())
-    progs += [CP.P3().restrict(sensors=[]), CP.P3().restrict(sensors=["one"])]
+    progs += [CP.P3().restrict(sensors=[]), CP.P3().restrict(sensors=["one"]), CP.P12()]
+    progs += [CP.with_noise(CP.P8(), process={"u": 0.0}, sensor={"wide": {"r2": 0.0}}, pid="P8-wide-zero-noise"), CP.with_noise(CP.P3(), process={"a": 0.0}, sensor={"two": {"q": 0.0}, "one": {"r": 0.0}}, pid="P3-nl3-zero-noise")]
     progs += [CP.random_program(seed, i) for i in range(8)]
     for p in progs:
         for cse in (True, False):
             out.append((p, cse, True))
         out.append((p, True, False))
+    out.append((CP.P11(), True, False))  # abs / inverse-function compositions: Model mode only (abs is not differentiable)
+    out.append((CP.P11(), False, False))
     return out
 
 
